@@ -188,7 +188,9 @@ public:
             palette_size = std::size_t( 1 ) << this->_info._bits_per_pixel;
         }
 
-        _palette.resize( palette_size, rgba8_pixel_t(0, 0, 0, 0));
+        // the colors of a palette are opaque (the fourth byte of an entry is reserved, not an alpha value): with an alpha
+        // of 0 every color conversion of the decoded pixels premultiplied them to black
+        _palette.resize( palette_size, rgba8_pixel_t(0, 0, 0, 255));
 
 		for( int i = 0; i < entries; ++i )
         {
